@@ -17,10 +17,12 @@ Inductive case :=
        (kind : Z) (payload : bytes) (seen : list (Z * string * bytes))
   (* blind: plugins whose address nobody listens on (connection refused): consulted according to
      the model, but there is no stub that could record the request *)
-  (* system level: one gated operation through a running frps.  effects: for every content the
+  (* system level: one gated operation through a frps started from a CONFIGURATION FILE with the
+     httpPlugins entries [es] (name, ops) in that order (config.LoadServerConfig incl. Complete,
+     validation, server.NewService); the stub behind the i-th entry is plugin i.  effects: for every content the
      chain may return, what the peer must observe if the server acts on exactly that content
      ("fail" when the gated action itself refuses it); observed: what the peer did observe *)
-| CSys (opi : Z) (ps : list plugin) (script : list (Z * sc)) (zero c0 : bytes)
+| CSys (opi : Z) (es : list cfg_entry) (script : list (Z * sc)) (zero c0 : bytes)
        (effects : list (bytes * bytes)) (observed : bytes) (seen : list (Z * string * bytes))
   (* close notifications of one session: events, then names notified (in arrival order per plugin) *)
 | CNotify (ops : list cop) (notes : list bytes).
@@ -88,23 +90,29 @@ Definition check_case (c : case) : Z :=
             let '(r, s) := ir_sem gen_ops gen_fields gen_register gen_methods o ps f c0 in
             if negb (result_eqb r r' && seen_eqb s s') then 9 else 0
       end
-  | CSys opi ps script zero c0 effects observed seen =>
+  | CSys opi es script zero c0 effects observed seen =>
       match op_of opi with
       | None => 90
       | Some o =>
           let f := script_fn zero script in
-          let '(r, s) := spec_sem o ps f c0 in
+          let '(r, s) := spec_sem o (number_from 1 es) f c0 in
           if negb (seen_eqb s seen) then 13
-          else match r with
-               | ROk c' =>
-                   match bassoc c' effects with
-                   | Some e => if bytes_eqb e observed then 0 else 12
-                   | None => 17
-                   end
-               | RRejected _ | RError => if bytes_eqb observed fail_marker then 0 else 14
-               | RCrash => 15
-               | RStuck => 16
-               end
+          else
+            let code := match r with
+                        | ROk c' =>
+                            match bassoc c' effects with
+                            | Some e => if bytes_eqb e observed then 0 else 12
+                            | None => 17
+                            end
+                        | RRejected _ | RError => if bytes_eqb observed fail_marker then 0 else 14
+                        | RCrash => 15
+                        | RStuck => 16
+                        end in
+            if negb (code =? 0) then code
+            else
+              (* the path configuration -> chain over today's translated tables, same specification *)
+              let '(r2, s2) := cfg_sem gen_cfg_uses gen_ops gen_fields gen_register gen_methods o es f c0 in
+              if result_eqb r2 r && seen_eqb s2 s then 0 else 19
       end
   | CNotify ops notes =>
       match crun cs_init ops with
@@ -118,9 +126,14 @@ Definition check_case (c : case) : Z :=
 (* counters for the evidence *)
 Definition case_result (c : case) : Z :=
   match c with
-  | CMgr _ opi ps script _ zero c0 _ _ _ | CSys opi ps script zero c0 _ _ _ =>
+  | CMgr _ opi ps script _ zero c0 _ _ _ =>
       match op_of opi with
       | Some o => result_code (fst (ir_sem gen_ops gen_fields gen_register gen_methods o ps (script_fn zero script) c0))
+      | None => 99
+      end
+  | CSys opi es script zero c0 _ _ _ =>
+      match op_of opi with
+      | Some o => result_code (fst (cfg_sem gen_cfg_uses gen_ops gen_fields gen_register gen_methods o es (script_fn zero script) c0))
       | None => 99
       end
   | CNotify _ _ => 98
@@ -143,3 +156,8 @@ Definition is_sys (c : case) : bool := match c with CSys _ _ _ _ _ _ _ _ => true
 Definition is_notify (c : case) : bool := match c with CNotify _ _ => true | _ => false end.
 Definition has_blind (c : case) : bool :=
   match c with CMgr _ _ _ _ (_ :: _) _ _ _ _ _ => true | _ => false end.
+Fixpoint has_dup_str (l : list string) : bool :=
+  match l with [] => false | x :: r => existsb (String.eqb x) r || has_dup_str r end.
+(* system-level configurations in which two entries share a name (the empty name included) *)
+Definition dup_names (c : case) : bool :=
+  match c with CSys _ es _ _ _ _ _ _ => has_dup_str (map fst es) | _ => false end.
